@@ -264,8 +264,67 @@ def listed_programs():
         yield ("sem-recursive", "used:" + r.split("\n")[0], HEADER + r + "\n\ndef h(a: A, v: V, x: X) -> None:\n    w = A\n    u = a.a.a\n    match v:\n        V.W(q) => pass\n        _ => pass\n    y = x.0\n    z = X(1)\n    println(f\"{A} {r(1)}\")\n")
 
 
+# ---------------------------------------------------------------------------------- inputs aimed at the audited panic sites
+# (self-audit of src/frontend/typechecker, src/backend/ir/{lower,emit}, const_eval, format: every group of
+#  `[..]` indexing / unwrap / expect / unreachable! / assert! / format_ident! / length arithmetic has an input here)
+
+def audit_programs():
+    def fn(body, sig="def h() -> None:", pre=""):
+        return HEADER + pre + sig + "\n" + "".join("    %s\n" % l for l in body.split("\n"))
+
+    groups = {
+        # R1 Literal::f64_unsuffixed(inf) (emit/expressions/mod.rs:98, emit/types.rs:126)
+        "R1-float-overflow": ["w = 1e999", "w = [1e999]", 'w = f"{1e999}"', "w = -1e999", "w = 1e308 * 10.0", "w = 1.7976931348623157e308", "w = 1e309",
+                              "match 1.5:\n    case 1e999:\n        pass\n    case _:\n        pass", "w = 123456789012345678901234567890.0e300"],
+        # R2 format_ident!(tuple index) in assignment targets (emit/expressions/lvalue.rs:87,123)
+        "R2-tuple-field-target": ["a = (P(x=1), 2)\na.0.x = 5", "a = (1, 2)\na.0 = 5", "a = (1, 2)\na.0 += 5", "xs = list()\nxs[0].0 = 1", "a = ((1, 2), 3)\na.0.1 = 4",
+                                   "a = [(1, 2)]\na[0].1 = 3", "a = N(1)\na.0 = 2"],
+        # R3 syn::Index::from(usize >= u32::MAX) (emit/expressions/indexing.rs:165)
+        "R3-huge-tuple-index": ["xs = list()\ny = xs[0].4294967296", "xs = list()\ny = xs[0].4294967295", "xs = list()\ny = xs[0].4294967294", "a = (1, 2)\ny = a.4294967296",
+                                "xs = list()\ny = xs[0].99999999999999999999999"],
+        # R4 format_ident!("0") for a newtype constructed without positional argument (emit/expressions/structs_enums.rs:77)
+        "R4-newtype-ctor": ["w = N()", "w = N(x=1)", "w = N(v=1)", "w = N(1)", "w = N(1, 2)", "w = N(0=1)"],
+        # G3/G4/G5 arity guards of builtins, methods, kwargs
+        "G-arity": ["w = range()", "w = zip([1])", "w = len()", "w = min()", "w = sorted()", "w = bool()", 'w = "a".replace("b")', 'w = {"a": 1}.insert("k")', "w = [1, 2].swap(1)",
+                    "w = g(b=\"s\")", "w = g(1, 2, b=\"s\")", "w = write_file(1)", "w = enumerate()", "w = sum(1, 2, 3)", "w = isinstance(1)", "w = max()", "w = abs()", "w = round(1.5, 2, 3)"],
+        # G6 generic annotations with too few arguments
+        "G-generic-arity": ["w: Dict[int] = {}\nu = w[1]", "w: Result[int] = Ok(1)\nu = w?", "w: List = []\nu = w[0]", "w: Option = None\nu = w?", "w: Set = {1}\nfor q in w:\n    pass",
+                            "w: Dict = {}\nfor k, v in w:\n    pass", "w: Tuple = (1,)\nu = w.0", "w: FrozenDict[str] = {}\nu = w[\"a\"]"],
+        # G7 tuple indexing
+        "G-tuple-index": ["t = (1, 2)\nw = t.5", "t = (1, 2)\nw = t[7]", "t = (1, 2)\nw = t[-3]", "t = (1, 2)\nw = t[-1]", "t = ()\nw = t.0", "t = (1,)\nw = t[0:5]"],
+        # G9 numeric operators / compound assignment
+        "G-numeric-ops": ["x = 1\nx //= 0", "x = 1\nx **= 2", "x = 1.5\nx %= 0.0", "x = \"s\"\nx -= 1", "x = 1\nx += \"s\"", "x = [1]\nx *= 2", "x = 1\nx /= 2", "w = 1 == 1 == 1"],
+        # G11 chained assignment
+        "G-chained-assign": ["a = b = c = 5", "a = b = (1, 2)", "a: int = b = 1", "a = b = c = d = e = f = [1]", "a, b = c = (1, 2)"],
+        # G12 newtype checked construction
+        "G-newtype-checked": [""],
+        # G14/G15 negative indices, labels
+        "G-neg-index": ["xs = [1]\nw = xs[-1]", "xs = [1]\nw = xs[-9223372036854775807]", "xs = [1]\nw = xs[- -1]", "xs = [1]\nw = xs[-0]", 's = "abc"\nw = s[-1:]', 's = "abc"\nw = s[::-1]'],
+    }
+    for gname, bodies in groups.items():
+        for b in bodies:
+            if b:
+                yield ("sem-audit", "%s|%s" % (gname, b.split("\n")[0]), fn(b))
+    # R5 cyclic inheritance: unbounded recursion in lower/decl.rs collect_inherited_fields / collect_inherited_methods
+    for src in ["class A1 extends A1:\n    a: int\n", "class A1 extends B1:\n    a: int\n\nclass B1 extends A1:\n    b: int\n",
+                "class A1 extends B1:\n    a: int\n\nclass B1 extends C1:\n    b: int\n\nclass C1 extends A1:\n    c: int\n",
+                "class A1 extends Zzz:\n    a: int\n", "class A1 extends P:\n    a: int\n", "class A1 extends E:\n    a: int\n", "class A1 extends K:\n    a: int\n\ndef h(a: A1) -> int:\n    return a.t() + a.z\n",
+                "class A1 extends K:\n    z: int\n", "class A1 extends K, K:\n    a: int\n", "class A1 extends A1 with Tr:\n    a: int\n"]:
+        yield ("sem-audit", "R5-extends|" + src.split("\n")[0], HEADER + src)
+    # G12 checked newtypes (from_underlying) with odd signatures and argument counts
+    for m in ["def from_underlying(v: int) -> Result[X, str]:\n        return Ok(X(v))", "def from_underlying() -> Result[X, str]:\n        return Ok(X(1))",
+              "def from_underlying(v: int, w: int) -> Result[X, str]:\n        return Ok(X(v))", "def from_underlying(self) -> X:\n        return self", "def from_underlying(v: int) -> int:\n        return v"]:
+        for call in ["X(1)", "X()", "X(1, 2)", "X(v=1)", 'X("s")']:
+            yield ("sem-audit", "G12|%s|%s" % (m.split("\n")[0], call), HEADER + "type X = newtype int:\n    %s\n\ndef h() -> None:\n    w = %s\n" % (m, call))
+    # G13 route handlers with 0 / 1 / 2 parameters, G1 names, G19 pretty printing of unusual items
+    for params in ["", "a: str", "a: str, b: int", "a: P", "req: Zzz", "self"]:
+        yield ("sem-audit", "G13-route|" + params, 'from web import App, route\n' + HEADER + '@route("/x/{a}")\nasync def r(%s) -> str:\n    return "s"\n\ndef main() -> None:\n    app = App()\n    app.run()\n' % params)
+    for name in ["r#x", "x0", "_", "__x__", "X", "fn", "type", "match", "self_", "crate_", "async", "dyn", "abstract", "try", "union", "macro_rules", "Self", "a" * 300]:
+        yield ("sem-audit", "G1-name|" + name[:20], HEADER + "def %s(%s: int) -> int:\n    %s = %s + 1\n    return %s\n\nmodel M_%s:\n    %s: int\n" % (name, name, name, name, name, name[:8], name))
+
+
 def all_programs():
-    for gen in (position_programs, operator_programs, listed_programs, typed_value_programs):
+    for gen in (audit_programs, position_programs, operator_programs, listed_programs, typed_value_programs):
         for item in gen():
             yield item
 
@@ -283,7 +342,7 @@ def stream(rng, quick):
     nt = len(TYPES)
     keep = set()
     for j, (uname, _) in enumerate(us):
-        for i in range(12):
+        for i in range(5):
             keep.add("%s|%s" % (TYPES[(j * 7 + i * 5 + rng.randrange(nt)) % nt], uname))
     # every built-in arity form and nested form meets every match pattern (the densest area)
     for t in BUILTIN_ARITIES[:17] + NESTED[:8]:
@@ -291,5 +350,5 @@ def stream(rng, quick):
             keep.add("%s|match=>:%s" % (t, p))
     chosen = [x for x in big if x[0] == "sem-type-use" and x[1] in keep]
     ops = [x for x in big if x[0] != "sem-type-use"]
-    chosen += rng.sample(ops, min(len(ops), 900))
+    chosen += rng.sample(ops, min(len(ops), 500))
     return small + chosen
